@@ -2891,10 +2891,36 @@ impl Interpreter {
         func: NativeFn,
         arity: usize,
     ) -> Gc<JsObject> {
+        let func_obj = self.root_guard.alloc();
+        self.init_native_function(&func_obj, name, func, arity);
+        func_obj
+    }
+
+    /// A native function object owned by `guard` instead of the permanent root set: for
+    /// functions created while scripts run (iterator `next` methods and the like), which
+    /// must be collectable once nothing refers to them
+    pub fn create_native_function_in(
+        &mut self,
+        guard: &Guard<JsObject>,
+        name: &str,
+        func: NativeFn,
+        arity: usize,
+    ) -> Gc<JsObject> {
+        let func_obj = guard.alloc();
+        self.init_native_function(&func_obj, name, func, arity);
+        func_obj
+    }
+
+    fn init_native_function(
+        &mut self,
+        func_obj: &Gc<JsObject>,
+        name: &str,
+        func: NativeFn,
+        arity: usize,
+    ) {
         let name_str = self.intern(name);
         let length_key = PropertyKey::String(self.intern("length"));
         let name_key = PropertyKey::String(self.intern("name"));
-        let func_obj = self.root_guard.alloc();
         {
             let mut f_ref = func_obj.borrow_mut();
             f_ref.prototype = Some(self.function_prototype.clone());
@@ -2909,7 +2935,6 @@ impl Interpreter {
             // Set name property
             f_ref.set_property(name_key, JsValue::String(name_str));
         }
-        func_obj
     }
 
     /// Create a function object from any JsFunction variant.
